@@ -337,3 +337,21 @@ func planC20(tier string, seed uint64) *Plan {
 	p.Phases = []Phase{{Name: "hook-sessions", Groups: randomPlan("ui_hook", seed, uiCfgs(seed, n, hookVariants), jobs, count, "stub")}}
 	return p
 }
+
+func init() { plans["C01"] = planC01 }
+
+func planC01(tier string, seed uint64) *Plan {
+	p := &Plan{
+		Level: "exploration",
+		Rule: "seeded hostile towns (raw C0/C1/DEL/ESC/OSC/CSI in every JSON text field, numeric character references in HTML text and attributes, Markdown, gemtext and plain bodies) and hostile HTTP exchanges (status lines, Content-Type and Location values, body garbage, wrongly typed and unparsable fields quoted in error text) fetched over the simulated network; every Name/String/Preview at tape-chosen widths and every frame of settled UI sessions (incl. typed bytes >= 0x80 and hostile hook output in the footer) is scanned: only printable runes, newlines and ESC[(digit|;)*m may occur. Non-trivial = every run; distinct = distinct (world tape, event order) fingerprint.",
+		Assumptions: []string{"the renderers' input space is not enumerated (they are pure functions, C06/C12-C15 are not claimed); C01 is decided at the terminal boundary for content arriving through simulated I/O"},
+	}
+	n, jobs, count := 16, 1, 150
+	if tier == "thorough" {
+		n, jobs, count = 32, 3, 2000
+	}
+	groups := randomPlan("c01_pub", seed, uiCfgs(seed, n, nil), jobs, count, "stub")
+	groups = append(groups, randomPlan("ui_hostile", seed+5, uiCfgs(seed+5, n, nil), jobs, count/5, "stub")...)
+	p.Phases = []Phase{{Name: "hostile-content", Groups: groups}}
+	return p
+}
